@@ -27,40 +27,101 @@ KERNEL_STREAMS = ("domains", "clusters", "answer", "lconflict", "gwdup")
 # records them in known-findings.json (status: known); until an entry is there, this local copy is used, as
 # BUILDING.md allows. Anything not listed here - in particular every crash, every closure or name-uniqueness
 # violation and every collision from admitted objects other than the ones below - still fails the run.
-LOCAL_KNOWN = [
-    # objects that pass admission validation
-    ("snapshot:addr-unique:admitted:ServiceEntry",
-     "a service on port 15001 (the sidecar's own virtualOutbound port) yields a second listener on 0.0.0.0:15001; Envoy rejects it (duplicate address)"),
+# --- objects that pass admission validation (each class is decided on the shrunk mesh by a classifier below)
+KNOWN_ADMITTED = [
+    ("snapshot:addr-unique:admitted:service-port-equals-sidecar-virtual-listener-port",
+     "a service without an address (ServiceEntry without addresses, headless) with a non-HTTP port equal to the sidecar's own virtual listener "
+     "port (15001 / 15006) yields an outbound listener on the wildcard address of that port beside virtualOutbound / virtualInbound; Envoy "
+     "rejects it (duplicate address). conflictWithReservedListener only guards HTTP ports and explicit wildcard binds; the repair contradicts "
+     "the unedited TestOutboundListenerConflictWithReservedListener",
+     "snapshot.known-port-15001.ops"),
     ("snapshot:dup-fcm:admitted:gateway-tls-servers-same-sni-different-namespace-qualifier",
      "upstream-known istio#24638: TLS servers of one gateway port and bind whose hosts name the same SNI host under different namespace "
      "qualifiers (two Gateways in different namespaces with hosts ./foo.com, or default/* and ./*) pass CheckDuplicates (it compares the "
      "namespaced strings) and yield two filter chains with the same server_names match; Envoy rejects the listener. Pinned by the unedited "
-     "test TestGatewayConflicts/duplicate_tls_gateway, so not fixed"),
+     "test TestGatewayConflicts/duplicate_tls_gateway, so not fixed",
+     "snapshot.known-gateway-dup-sni.ops"),
     ("snapshot:dup-fcm:admitted:gateway-auto-passthrough-servers-overlapping-hosts",
      "two AUTO_PASSTHROUGH servers on one port whose hosts overlap (*.example.org and api.example.org) each emit the SNI-DNAT filter chain "
-     "of the same service: duplicate match, listener rejected"),
+     "of the same service: duplicate match, listener rejected",
+     "snapshot.known-gateway-merge-auto-passthrough.ops"),
     ("snapshot:dup-fcm:admitted:gateway-tls-server-then-plaintext-tcp-server-on-one-port",
      "mergeGateways rule 3 (no TLS and plain TCP on one port) is only enforced when the plaintext server comes first; TLS server first, "
-     "then an opaque TCP server: both kept, a wildcard-host TLS chain and the TCP chain both have the empty match"),
+     "then an opaque TCP server: both kept, a wildcard-host TLS chain and the TCP chain both have the empty match",
+     "snapshot.known-gateway-merge-tls-then-tcp.ops"),
     ("snapshot:dup-fcm:admitted:gateway-plaintext-servers-one-port-other-bind-in-between",
      "mergeGateways keeps plainTextServers per port only: a plaintext server on another bind overwrites the entry, a later HTTP server on the "
-     "first bind is not merged into the existing one and a second HTTP filter chain with the empty match is built"),
-    # objects admission validation rejects, loaded past it: generation copies the invalid value into the Envoy
-    # configuration and Envoy rejects the response (no crash). One class per violated clause / API rule.
-    ("snapshot:weights:invalid-input", "invalid VirtualService weights / an HTTP route without action reach weighted_clusters unchanged"),
-    ("snapshot:dup-domain:invalid-input", "a host \"*\" (ServiceEntry / mesh VirtualService) becomes a second \"*\" domain beside the catch-all virtual host"),
-    ("snapshot:dup-fcm:invalid-input", "invalid ports / hosts produce two filter chains with one match"),
-    ("snapshot:addr-unique:invalid-input", "invalid service ports produce two listeners on one address"),
-    ("snapshot:api-valid:SocketAddress.PortValue:_value_must_be_less_than_or_equal_to_N:invalid-input", "a port above 65535 reaches a socket address"),
-    ("snapshot:api-valid:SocketAddress.Address:_value_length_must_be_at_least_N_runes:invalid-input", "an empty endpoint / host address reaches a socket address"),
-    ("snapshot:api-valid:Route.Action:_value_is_required:invalid-input", "an HTTP route with both redirect and route, or none, yields a route without action"),
-    ("snapshot:api-valid:HeaderValue.Key:_value_length_must_be_at_least_N_runes:invalid-input", "an empty header name in headers.set/add reaches request_headers_to_add"),
-    ("snapshot:api-valid:HeaderMatcher.Name:_value_length_must_be_at_least_N_runes:invalid-input", "an empty header name in a match reaches a HeaderMatcher"),
-    ("snapshot:api-valid:Cluster.ConnectTimeout:_value_must_be_greater_than_Ns:invalid-input", "a negative connectTimeout reaches the cluster"),
-    ("snapshot:api-valid:Cluster_RingHashLbConfig.MinimumRingSize:_value_must_be_less_than_or_equal_to_N:invalid-input", "a ring size above Envoy's maximum reaches the cluster"),
-    ("snapshot:api-valid:FilterChainMatch.DestinationPort:_value_must_be_inside_range_[N:invalid-input", "a port-level PeerAuthentication for port 0 / above 65535 reaches an inbound filter chain match"),
-    ("snapshot:api-valid:RouteAction_HashPolicy_Header.HeaderName:_value_length_must_be_at_least_N_runes:invalid-input", "an empty consistentHash.httpHeaderName reaches the route hash policy"),
+     "first bind is not merged into the existing one and a second HTTP filter chain with the empty match is built",
+     "snapshot.known-gateway-merge-plaintext-binds.ops"),
 ]
+
+# --- objects admission validation rejects, loaded past it (the property includes them): generation copies the invalid value into
+# the Envoy configuration and Envoy rejects the response (no crash). A case is known ONLY if the shrunk mesh contains exactly one
+# rejected object, damaged by exactly the listed mutation (mutate.go), and the violated clause / API rule is the one listed for it.
+MUTATION = {
+    "vs-huge-weights": "VirtualService http route weights summing above 4294967295",
+    "vs-http-no-action": "VirtualService http route without route / redirect / directResponse",
+    "vs-negative-weight": "VirtualService http route destination with a negative weight",
+    "vs-zero-weights": "VirtualService http route with several destinations, all of weight 0",
+    "vs-redirect-and-route": "VirtualService http route with both redirect (code 999) and route",
+    "vs-bad-headers": "VirtualService headers.request.set/add with an empty / malformed header name",
+    "vs-empty-matchers": "VirtualService match with an empty header name / empty StringMatch",
+    "vs-star-host": "VirtualService bound to the mesh with host *",
+    "se-star-host": "ServiceEntry with host *",
+    "se-nil-endpoint": "ServiceEntry with an empty endpoint entry (no address)",
+    "se-bad-endpoint-address": "ServiceEntry endpoints with an empty / unix / garbage address under STATIC resolution",
+    "se-garbage-hosts": "ServiceEntry with IP / empty / malformed hosts",
+    "se-port-range": "ServiceEntry port 0 or 70000",
+    "se-dup-ports": "ServiceEntry listing one port number (and one port name) twice",
+    "se-endpoint-port-range": "ServiceEntry endpoint port map with port 0 / 70000 / unknown names",
+    "gw-port-range": "Gateway server port 0 or 70000",
+    "pa-port-range": "PeerAuthentication portLevelMtls for port 0 and 70000",
+    "dr-negative-pool": "DestinationRule connectionPool / outlierDetection with negative durations and counts",
+    "dr-empty-hash": "DestinationRule consistentHash with an empty httpHeaderName and minimumRingSize 9999999999",
+    "we-port-range": "WorkloadEntry port map with port 0 / 70000",
+    "we-empty-address": "WorkloadEntry without address",
+}
+RULE = {
+    "weights": "weighted_clusters weights out of range (negative, sum 0 or above uint32)",
+    "dup-domain": "a second domain * beside the catch-all virtual host",
+    "dup-fcm": "two filter chains of one listener with the same match",
+    "addr-unique": "two listeners on one address",
+    "api-valid:SocketAddress.PortValue:_value_must_be_less_than_or_equal_to_N": "a port above 65535 in a socket address",
+    "api-valid:SocketAddress.Address:_value_length_must_be_at_least_N_runes": "an empty address in a socket address",
+    "api-valid:Route.Action:_value_is_required": "a route without action",
+    "api-valid:HeaderValue.Key:_value_length_must_be_at_least_N_runes": "an empty header name in request_headers_to_add",
+    "api-valid:HeaderMatcher.Name:_value_length_must_be_at_least_N_runes": "an empty header name in a HeaderMatcher",
+    "api-valid:Cluster.ConnectTimeout:_value_must_be_greater_than_Ns": "a non-positive connect_timeout",
+    "api-valid:Cluster_RingHashLbConfig.MinimumRingSize:_value_must_be_less_than_or_equal_to_N": "a ring size above 8388608",
+    "api-valid:RouteAction_HashPolicy_Header.HeaderName:_value_length_must_be_at_least_N_runes": "an empty hash policy header name",
+    "api-valid:FilterChainMatch.DestinationPort:_value_must_be_inside_range_[N": "a filter chain match destination port outside 1..65535",
+}
+KNOWN_INVALID_PAIRS = [  # (violated clause / API rule, mutation)
+    ("weights", "vs-huge-weights"),
+    ("weights", "vs-http-no-action"),
+    ("weights", "vs-negative-weight"),
+    ("weights", "vs-zero-weights"),
+    ("dup-domain", "se-star-host"),
+    ("dup-fcm", "pa-port-range"),
+    ("dup-fcm", "se-dup-ports"),
+    ("api-valid:SocketAddress.PortValue:_value_must_be_less_than_or_equal_to_N", "se-port-range"),
+    ("api-valid:SocketAddress.PortValue:_value_must_be_less_than_or_equal_to_N", "gw-port-range"),
+    ("api-valid:SocketAddress.Address:_value_length_must_be_at_least_N_runes", "se-nil-endpoint"),
+    ("api-valid:SocketAddress.Address:_value_length_must_be_at_least_N_runes", "se-bad-endpoint-address"),
+    ("api-valid:SocketAddress.Address:_value_length_must_be_at_least_N_runes", "se-garbage-hosts"),
+    ("api-valid:Route.Action:_value_is_required", "vs-redirect-and-route"),
+    ("api-valid:HeaderValue.Key:_value_length_must_be_at_least_N_runes", "vs-bad-headers"),
+    ("api-valid:HeaderMatcher.Name:_value_length_must_be_at_least_N_runes", "vs-empty-matchers"),
+    ("api-valid:Cluster.ConnectTimeout:_value_must_be_greater_than_Ns", "dr-negative-pool"),
+    ("api-valid:Cluster_RingHashLbConfig.MinimumRingSize:_value_must_be_less_than_or_equal_to_N", "dr-empty-hash"),
+    ("api-valid:RouteAction_HashPolicy_Header.HeaderName:_value_length_must_be_at_least_N_runes", "dr-empty-hash"),
+]
+
+LOCAL_KNOWN = [(fp, what) for fp, what, _ in KNOWN_ADMITTED] + [
+    ("snapshot:%s:invalid-input:tag=%s" % (rule, mut),
+     "validator-rejected input loaded past validation: %s -> %s reaches the Envoy configuration unsanitised; Envoy rejects the response"
+     % (MUTATION[mut], RULE[rule]))
+    for rule, mut in KNOWN_INVALID_PAIRS]
 
 
 def install_local_known(ctx):
@@ -243,7 +304,7 @@ def shrink_case(ctx, case_lines, cls, tag):
     return [head] + body
 
 
-def fingerprint(ctx, min_lines, cls, tag):
+def fingerprint(ctx, min_lines, cls, tag, verdict=""):
     """Fingerprint of the minimal failing input class.
     needs a rejected object:            snapshot:<class>:invalid-input      (the replay names the damaged objects)
     all admitted, one deliberately
@@ -254,6 +315,14 @@ def fingerprint(ctx, min_lines, cls, tag):
     p = os.path.join(ctx.work, "snapshot.%s.fp.ops" % tag)
     write_lines(p, min_lines)
     impl, _ = exec_snapshot(ctx, p, tag + ".fp")
+    if any(verdict_class(o).startswith("crash process") for o in impl):
+        # the process died: the per-object admission verdicts were lost; get them from a run without the pushes
+        q = os.path.join(ctx.work, "snapshot.%s.fpv.ops" % tag)
+        nopush = [l for l in min_lines if not l.startswith("push")]
+        write_lines(q, nopush)
+        vimpl, _ = exec_snapshot(ctx, q, tag + ".fpv", retry=False)
+        vmap = dict(zip(nopush, vimpl))
+        impl = [vmap.get(l, o) if not l.startswith("push") else o for l, o in zip(min_lines, impl)]
     kinds, rtags, atags = set(), set(), set()
     rejected = False
     for l, o in zip(min_lines, impl):
@@ -271,7 +340,12 @@ def fingerprint(ctx, min_lines, cls, tag):
     c = cls.replace("bad ", "").replace(" ", ":")
     c = re.sub(r"[^A-Za-z0-9_.:\[\]@,=-]", "_", c)[:160]
     if rejected:
-        return "snapshot:%s:invalid-input" % c, True, sorted(rtags | atags)
+        # the class names the damage: the mutation tag(s) of the rejected object(s) of the minimal mesh
+        return "snapshot:%s:invalid-input:tag=%s" % (c, "+".join(sorted(rtags)) or "untagged"), True, sorted(rtags | atags)
+    if cls == "bad addr-unique":
+        g = classify_reserved_port(min_lines, verdict)
+        if g:
+            return "snapshot:addr-unique:admitted:%s" % g, False, []
     if atags:
         return "snapshot:%s:admitted:tag=%s" % (c, "+".join(sorted(atags))), False, sorted(atags)
     if cls == "bad dup-fcm" and "Gateway" in kinds:
@@ -279,6 +353,28 @@ def fingerprint(ctx, min_lines, cls, tag):
         if g:
             return "snapshot:dup-fcm:admitted:%s" % g, False, []
     return "snapshot:%s:admitted:%s" % (c, "+".join(sorted(kinds)) or "Service"), False, []
+
+
+def classify_reserved_port(min_lines, verdict):
+    """A service (registry service or ServiceEntry) of the minimal mesh has a port equal to one of the sidecar's own
+    virtual listener ports, and the duplicated address is the wildcard address on that port."""
+    from urllib.parse import unquote
+    m = re.search(r"bad addr-unique \S*?:(?:0\.0\.0\.0|%5B%3A%3A%5D|\[::\]):(15001|15006)$", verdict.strip())
+    if not m:
+        return None
+    port = int(m.group(1))
+    for l in min_lines:
+        f = l.split()
+        if f[0] == "svc" and any(p.split("/")[1:2] == [str(port)] for p in unquote(f[4]).split(",")):
+            return "service-port-equals-sidecar-virtual-listener-port"
+        if f[0] == "cfg" and f[1] == "ServiceEntry":
+            try:
+                spec = json.loads(unquote(f[6]))
+            except ValueError:
+                continue
+            if any(p.get("number") == port for p in spec.get("ports", [])):
+                return "service-port-equals-sidecar-virtual-listener-port"
+    return None
 
 
 def classify_gateway_merge(min_lines):
@@ -312,6 +408,23 @@ def classify_gateway_merge(min_lines):
                             "tls": tls is not None and proto in ("HTTPS", "TLS"),
                             "mode": (tls or {}).get("mode", "PASSTHROUGH" if tls is not None else ""),
                             "http": proto in ("HTTP", "HTTP2", "GRPC", "GRPC-WEB", "HTTP_PROXY")})
+    # a server port is resolved through the gateway workload's Service: Service port -> target port of its endpoints
+    svc_ports, target = {}, {}
+    for l in min_lines:
+        f = l.split()
+        if f[0] == "svc":
+            for pd in unquote(f[4]).split(","):
+                q = pd.split("/")
+                if len(q) == 3 and q[1].isdigit():
+                    svc_ports[(unquote(f[1]), q[0])] = int(q[1])
+    for l in min_lines:
+        f = l.split()
+        if f[0] == "ep" and len(f) > 7 and f[7].isdigit():
+            sp = svc_ports.get((unquote(f[1]), unquote(f[2])))
+            if sp is not None:
+                target[sp] = int(f[7])
+    for srv in servers:
+        srv["port"] = target.get(srv["port"], srv["port"])
     pairs = [(a, b) for i, a in enumerate(servers) for b in servers[i + 1:] if a["port"] == b["port"]]
     # istio#24638: TLS servers on one port and bind with a common SNI host under different namespace qualifiers
     for a, b in pairs:
@@ -406,13 +519,14 @@ def snapshot_file(ctx, ops_path, tag, budget):
         ctx.note_case("snapshot\n" + "\n".join(canon), nontrivial, sample)
         if failing is not None:
             i, cls, go_v, lean_v = failing
-            pre = (cls, ops[i].split()[1], kind)
+            case_tags = sorted({t[4:] for l in clines if l.startswith("cfg") for t in l.split()[7].split(",") if t.startswith("tag:")})
+            pre = (cls, ops[i].split()[1], kind, "+".join(case_tags))
             per_class[pre] = per_class.get(pre, 0) + 1
             if per_class[pre] > budget:
                 ctx.count("snapshot.unshrunk_repeats")
                 continue
             small = shrink_case(ctx, clines, cls, tag)
-            fp, rejected, tags = fingerprint(ctx, small, cls, tag)
+            fp, rejected, tags = fingerprint(ctx, small, cls, tag, go_v)
             if rejected:
                 for t in tags:
                     ctx.count("snapshot.invalid_input_finding.%s.%s" % (cls.split()[1] if cls.startswith("bad") else "crash", t))
